@@ -221,7 +221,7 @@ func c09MagnitudeSpace(do func(family, expr, spec string)) {
 	// numeric text of enormous magnitude or precision
 	digits := func(n int) string { return strings.Repeat("7", n) }
 	texts := []string{"1e1000000", "1e-1000000", "1e999999999", "-1e999999999", "1e-999999999", "1e" + digits(1000), "1e-" + digits(1000), digits(100000), "0." + digits(100000), digits(50000) + "." + digits(50000),
-		digits(100000) + "e-100000", "1e+" + digits(100000), "0e" + digits(100000), "9e6144", "1e6145", "1e-6177"}
+		digits(100000) + "e-100000", "1e+" + digits(100000), "0e" + digits(100000), "9e6144", "1e6145", "1e-6177", "0e4000000000", "0e999999999", "0E+18446744073709551615", "-0e99999999999", "0.0e4000000000", "00e123456789012", "5e-324", "0e-4000000000"}
 	for _, t := range texts {
 		d := "num:" + t
 		for _, e := range []string{"x + y", "x * x", "x / y", "y / x", "x // y", "x % y", "x < y", "x == x", "[x] == [x]", "abs(x)", "ceil(x)", "floor(x)", "-x", "sum([x, y])", "avg([x, x])", "max([x, y])", "sort([x, y, x])", "to_number(x)", "to_string(x)",
